@@ -38,12 +38,13 @@ fn default_port_of(scheme: &str) -> Option<u16> {
     }
 }
 
-/// Rust twin of the Coq class `known_c06_7` (Proofs/C06_SegPush.v, finding F-C06-7): a segment that
-/// `PathSegmentsMut::extend` does not skip (it is not literally "." / "..") whose TAB/LF/CR-free text is "." or "..".
-/// The parser's input drops TAB/LF/CR, the path state then reads a dot segment (".." pops the last segment).
-fn known_c06_7(seg: &str) -> bool {
+/// Rust twin of the Coq test `psm_skips` (Model/Setters.v; `seg_skipped (strip_tnl seg)` in Proofs/C06_SegPush.v): the
+/// segments `PathSegmentsMut::extend` must skip - the TAB/LF/CR-free text, which is what the parser will see, is "."
+/// or "..".  Before the repair of finding F-C06-7 only the literal "." / ".." were skipped and ".<TAB>." popped the
+/// last segment; the oracle below expects the repaired behaviour for EVERY segment (no class is skipped any more).
+fn seg_skipped(seg: &str) -> bool {
     let t: String = seg.chars().filter(|c| !matches!(c, '\t' | '\n' | '\r')).collect();
-    !matches!(seg, "." | "..") && matches!(t.as_str(), "." | "..")
+    matches!(t.as_str(), "." | "..")
 }
 
 /// one expected path segment: text kept from the old path, or the bytes a push must read back as once percent-decoded
@@ -66,7 +67,8 @@ impl ExpSeg {
 /// pop_if_empty remove at most the last segment, push / extend append the segment (replace the single empty segment
 /// of the path "/") and touch no other one; a pushed segment reads back, percent-decoded, as the UTF-8 bytes of the
 /// argument without TAB/LF/CR and contains no '?' or '#'.
-/// Sessions pushing a segment of the known class F-C06-7 are skipped (KNOWN-FINDING replay in the known mode);
+/// A segment whose TAB/LF/CR-free text is "." / ".." is skipped by extend (finding F-C06-7, fixed: no session is
+/// left out of the search any more; the known mode reports a reproduction as a VIOLATION);
 /// file URLs are evaluated only for sessions without push / extend (drive-letter rewriting is outside the theorem).
 fn prop_c06_segments(before: &Url, ops: &[PsmOp], after: &Url) -> Option<String> {
     let pushes = ops.iter().any(|o| matches!(o, PsmOp::Push(_) | PsmOp::Extend(_)));
@@ -78,12 +80,9 @@ fn prop_c06_segments(before: &Url, ops: &[PsmOp], after: &Url) -> Option<String>
         None => true,
         Some(l) => l.len() == 1 && l[0].is_empty(),
     };
-    let push = |segs: &mut Option<Vec<ExpSeg>>, s: &str| -> bool {
-        if matches!(s, "." | "..") {
-            return true;
-        }
-        if known_c06_7(s) {
-            return false;
+    let push = |segs: &mut Option<Vec<ExpSeg>>, s: &str| {
+        if seg_skipped(s) {
+            return;
         }
         let bytes: Vec<u8> = s.chars().filter(|c| !matches!(c, '\t' | '\n' | '\r')).collect::<String>().into_bytes();
         if root(segs) {
@@ -91,7 +90,6 @@ fn prop_c06_segments(before: &Url, ops: &[PsmOp], after: &Url) -> Option<String>
         } else if let Some(l) = segs.as_mut() {
             l.push(ExpSeg::Pushed(bytes));
         }
-        true
     };
     for o in ops {
         match o {
@@ -117,16 +115,10 @@ fn prop_c06_segments(before: &Url, ops: &[PsmOp], after: &Url) -> Option<String>
                     }
                 }
             }
-            PsmOp::Push(s) => {
-                if !push(&mut segs, s) {
-                    return None;
-                }
-            }
+            PsmOp::Push(s) => push(&mut segs, s),
             PsmOp::Extend(ss) => {
                 for s in ss {
-                    if !push(&mut segs, s) {
-                        return None;
-                    }
+                    push(&mut segs, s);
                 }
             }
         }
@@ -543,8 +535,8 @@ fn run_known(args: &Args) -> Report {
     // fixed (0cfc9d8): set_path on a cannot-be-a-base URL tested for the leading '/' before tab/LF/CR removal
     wit(&mut rep, "F-C06-6", &["C02", "C03", "C05", "C06"], "a:b", Op::SetPath("\t/ y".into()),
         &|u| !u.cannot_be_a_base() || u.as_str() == "a:/ y");
-    // open: push(".<TAB>.") is not skipped by extend() (only the literal "." / ".." are), the parser's input drops the
-    // TAB and the path state reads "..": the last segment is popped
+    // fixed (9cd6187): push(".<TAB>.") was not skipped by extend() (only the literal "." / ".." were), the parser's input
+    // dropped the TAB and the path state read "..": the last segment was popped
     wit(&mut rep, "F-C06-7", &["C06"], "http://h/a/b", Op::Psm(vec![PsmOp::Push(".\t.".into())]),
         &|u| u.as_str() == "http://h/a/");
     rep
